@@ -414,17 +414,36 @@ impl Machine {
 }
 
 impl Machine {
+    /// Reinterpret a raw word as a slotmap key, if it can be one. These probes are applied
+    /// to words that may hold anything (e.g. a plain number): reinterpreting arbitrary bits
+    /// as a key is undefined behaviour (the key's version is a `NonZeroU32`, and the all-zero
+    /// word matches the storage's uninitialised sentinel slot). A key that a slotmap handed
+    /// out always has an odd version.
+    fn raw_to_key(raw: RawVal) -> Option<slotmap::DefaultKey> {
+        // Which half of the word holds the version is the compiler's choice: ask a known key
+        // (index 0, version 1).
+        let probe = slotmap::DefaultKey::from(slotmap::KeyData::from_ffi(1 << 32));
+        let version_in_high_half = Self::to_value(probe) >> 32 == 1;
+        let version = if version_in_high_half {
+            (raw >> 32) as u32
+        } else {
+            raw as u32
+        };
+        (version % 2 == 1).then(|| Self::get_as::<slotmap::DefaultKey>(raw))
+    }
+
     fn try_get_heap_backed_closure(&self, raw: RawVal) -> Option<(heap::HeapIdx, ClosureIdx)> {
-        let heap_idx = Self::get_as::<heap::HeapIdx>(raw);
+        let heap_idx: heap::HeapIdx = Self::raw_to_key(raw)?;
         self.heap.get(heap_idx).and_then(|obj| {
             obj.data
                 .first()
-                .map(|&closure_raw| (heap_idx, Self::get_as::<ClosureIdx>(closure_raw)))
+                .and_then(|&closure_raw| Self::raw_to_key(closure_raw))
+                .map(|closure_key| (heap_idx, ClosureIdx(closure_key)))
         })
     }
 
     fn try_get_direct_closure(&self, raw: RawVal) -> Option<ClosureIdx> {
-        let clsidx = Self::get_as::<ClosureIdx>(raw);
+        let clsidx = ClosureIdx(Self::raw_to_key(raw)?);
         self.closures.contains_key(clsidx.0).then_some(clsidx)
     }
 
